@@ -1,8 +1,8 @@
 package main
 
 import (
+	"go/constant"
 	"fmt"
-	"go/ast"
 	"go/token"
 	"go/types"
 	"sort"
@@ -612,6 +612,7 @@ func runC18(c *Check) {
 	c.ruleFreshHandshakeChannel("R7")
 	c.ruleFreshSessionPerConnect("R3", fHash)
 	c.ruleHandshakeCompleteAfterReadyWritten("R8", fHSC, c.P.Field("client", "RemoteClient", "handshakeCompleteChannel"))
+	c.ruleFailedMessageLeavesLoop("R10")
 	c.ruleConnectionFlagsReset("R9", map[string]*types.Var{"accepted": fAccepted, "handshakeComplete": fHSC})
 	// the functions that write to the connection are this property's mechanism ("never reported as sent
 	// without having been written"): the shared discipline rules run over them too
@@ -624,28 +625,32 @@ func runC18(c *Check) {
 	// ---- R5 IsHandshakeType table
 	if fd := findFuncDecl(p, "", "IsHandshakeType"); fd != nil {
 		got := map[string]bool{}
-		ast.Inspect(fd, func(n ast.Node) bool {
-			cc, ok := n.(*ast.CaseClause)
-			if !ok {
-				return true
-			}
-			ret := false
-			for _, st := range cc.Body {
-				if rs, ok := st.(*ast.ReturnStmt); ok && len(rs.Results) == 1 {
-					if id, ok := rs.Results[0].(*ast.Ident); ok && id.Name == "true" {
-						ret = true
-					}
+		// the set is read off the compiled function by constant propagation of each type code through
+		// its branches (the spelling - switch with returns, one result variable, if chain - does not matter)
+		if hfn := c.P.Fn("client.IsHandshakeType"); hfn != nil && len(hfn.Params) == 1 {
+			sc0 := p.Types.Scope()
+			for _, n := range sc0.Names() {
+				k, isK := sc0.Lookup(n).(*types.Const)
+				if !isK || !strings.HasPrefix(n, "MessageType") {
+					continue
+				}
+				kv, exact := constant.Int64Val(constant.ToInt(k.Val()))
+				if !exact {
+					continue
+				}
+				res, known := evalBoolFuncOnConst(hfn, kv)
+				if !known {
+					c.Undecided("R5", "client.IsHandshakeType#exact-set", fd.Pos(), "the answer for %s could not be computed by constant propagation", n)
+					return
+				}
+				if res {
+					got[n] = true
 				}
 			}
-			if ret {
-				for _, e := range cc.List {
-					if id, ok := e.(*ast.Ident); ok {
-						got[id.Name] = true
-					}
-				}
-			}
-			return true
-		})
+		} else {
+			c.Undecided("R5", "anchor:client.IsHandshakeType", token.NoPos, "function not found or not unary")
+			return
+		}
 		want := map[string]bool{"MessageTypeRegister": true, "MessageTypeReady": true}
 		sc := p.Types.Scope()
 		for _, n := range sc.Names() {
@@ -717,4 +722,128 @@ func returnsKnownNonNilError(nd walkNode) bool {
 	}
 	nn, known := truthOf(v, nd.b, nd.env, 0)
 	return known && nn
+}
+
+// evalBoolFuncOnConst propagates the integer constant k for the single parameter of a side-effect-free
+// bool function through its control flow (comparisons against constants, boolean operators, phis)
+// and returns the result if every branch on the way is decided.
+func evalBoolFuncOnConst(fn *ssa.Function, k int64) (bool, bool) {
+	if len(fn.Blocks) == 0 || len(fn.Params) != 1 {
+		return false, false
+	}
+	param := fn.Params[0]
+	var pred *ssa.BasicBlock
+	b := fn.Blocks[0]
+	var evalInt func(v ssa.Value, depth int) (int64, bool)
+	var evalBool func(v ssa.Value, depth int) (bool, bool)
+	phiEdge := func(phi *ssa.Phi) ssa.Value {
+		if phi.Block() != b || pred == nil {
+			return nil
+		}
+		for i, p := range b.Preds {
+			if p == pred {
+				return phi.Edges[i]
+			}
+		}
+		return nil
+	}
+	// values of phis are those chosen when their block was entered: remember them
+	phiVal := map[*ssa.Phi]ssa.Value{}
+	evalInt = func(v ssa.Value, depth int) (int64, bool) {
+		if depth > 20 {
+			return 0, false
+		}
+		switch x := v.(type) {
+		case *ssa.Parameter:
+			if x == param {
+				return k, true
+			}
+		case *ssa.Const:
+			return constInt(x)
+		case *ssa.Convert:
+			return evalInt(x.X, depth+1)
+		case *ssa.ChangeType:
+			return evalInt(x.X, depth+1)
+		case *ssa.Phi:
+			if e, ok := phiVal[x]; ok {
+				return evalInt(e, depth+1)
+			}
+		}
+		return 0, false
+	}
+	evalBool = func(v ssa.Value, depth int) (bool, bool) {
+		if depth > 20 {
+			return false, false
+		}
+		switch x := v.(type) {
+		case *ssa.Const:
+			return isConstBool(x)
+		case *ssa.UnOp:
+			if x.Op == token.NOT {
+				r, ok := evalBool(x.X, depth+1)
+				return !r, ok
+			}
+		case *ssa.Phi:
+			if e, ok := phiVal[x]; ok {
+				return evalBool(e, depth+1)
+			}
+		case *ssa.BinOp:
+			l, ok1 := evalInt(x.X, depth+1)
+			r, ok2 := evalInt(x.Y, depth+1)
+			if ok1 && ok2 {
+				switch x.Op {
+				case token.EQL:
+					return l == r, true
+				case token.NEQ:
+					return l != r, true
+				case token.LSS:
+					return l < r, true
+				case token.LEQ:
+					return l <= r, true
+				case token.GTR:
+					return l > r, true
+				case token.GEQ:
+					return l >= r, true
+				}
+			}
+		}
+		return false, false
+	}
+	for steps := 0; steps < 500; steps++ {
+		for _, in := range b.Instrs {
+			if phi, ok := in.(*ssa.Phi); ok {
+				if e := phiEdge(phi); e != nil {
+					// resolve through earlier phis now (their values may change later)
+					if p2, isPhi := e.(*ssa.Phi); isPhi {
+						if e2, has := phiVal[p2]; has {
+							e = e2
+						}
+					}
+					phiVal[phi] = e
+				}
+			}
+		}
+		switch t := b.Instrs[len(b.Instrs)-1].(type) {
+		case *ssa.Return:
+			if len(t.Results) != 1 {
+				return false, false
+			}
+			return evalBool(t.Results[0], 0)
+		case *ssa.Jump:
+			pred, b = b, b.Succs[0]
+		case *ssa.If:
+			r, ok := evalBool(t.Cond, 0)
+			if !ok {
+				return false, false
+			}
+			if r {
+				pred, b = b, b.Succs[0]
+			} else {
+				pred, b = b, b.Succs[1]
+			}
+		default:
+			return false, false
+		}
+	}
+	return false, false
 }
